@@ -99,7 +99,8 @@ def checkFfiLine (kvs : List (String × String)) (rhs : String) : String := Id.r
   let okv := splitKV rhs
   let g (k : String) := (lookup okv k).getD ""
   -- C == native
-  for (c, nk) in [("cw", "nw"), ("ceq", "neq"), ("cmc", "nmc"), ("cr", "nr"), ("cc", "nc"), ("cp", "np")] do
+  for (c, nk) in [("cw", "nw"), ("ceq", "neq"), ("cmc", "nmc"), ("cr", "nr"), ("cc", "nc"), ("cp", "np"),
+      ("xs", "nxs"), ("crc", "nrc"), ("cwb", "nwb"), ("cpb", "npb")] do
     if g c != g nk then return s!"FAIL SPEC the C interface returned {c}={g c} but the native operations {nk}={g nk}"
   let nmax := n + countNewVars ops
   if g "nvars" != toString nmax then return "FAIL PARSE nvars"
